@@ -38,7 +38,7 @@ func c13Response() (*HTTPResponse, []byte) {
 // c13ResponseN: nStored = 3 restricts to what NewHTTPResponse produces (exactly one variant)
 func c13ResponseN(nStored int) (*HTTPResponse, []byte) {
 	compress.VerifCodecStubs = true
-	orig := verifBytesSym("body", 8)
+	orig := verifBytesSym("body", 8+24*verifTier())
 	resp := &HTTPResponse{StatusCode: 200, CompressMinLength: verifInt("minLength"), CompressSrv: "srv"}
 	verifAssume(resp.CompressMinLength >= 0)
 	if verifBool("compressibleType") {
